@@ -147,10 +147,15 @@ inductive Step where
   | tick (d : Nat)
 deriving DecidableEq, Repr, Inhabited
 
+/-- put arm, key on hold (queue.go:115-116): `onHoldQueue[key] = value` — the latest value is parked
+    (`Gen.Queue.onHoldPutKeepsLatest`; otherwise: only when nothing is parked yet) -/
+def parkValue (k v : Nat) (ohq : List (Nat × Nat)) : List (Nat × Nat) :=
+  if Gen.Queue.onHoldPutKeepsLatest || (amLookup k ohq).isNone then amSet k v ohq else ohq
+
 /-- `case item := <-queue.putCh` (queue.go:111). -/
 def doPut (s : Q) (k v : Nat) : Q :=
   if k ∈ s.onHold then
-    { s with ohq := amSet k v s.ohq,
+    { s with ohq := parkValue k v s.ohq,
              length := if (amLookup k s.ohq).isSome then s.length else s.length + 1 }
   else
     let r := s.pq.push k v s.now Gen.Queue.putOverwrite
